@@ -110,6 +110,11 @@ def trip(ctx, case):
             ns['execute'] = rec.operation()(execute)
             from vlib import genclasses
             cls = genclasses.register(type('FileOp%d' % (case['seed'] % 100000), (object,), ns))
+            if case['seed'] % 3 == 0:
+                # the class also asks for copy-on-interception (two features that are each used alone elsewhere)
+                from playback.tape_recorder import RecordingParameters
+                rec.recording_params(RecordingParameters(copy_data_on_intercepion=True))(cls)
+                ctx.count('trips_with_copy_on_interception')
             audit.start()
             live_result = cls().execute(dir_a)
             opened = audit.stop()
